@@ -22,14 +22,15 @@ LEVEL = "exploration"
 RULE = (
     "seeded generator: 9 network classes (2-10 tensors) x random/caterpillar/balanced trees x random "
     "ordered removed sets (inner/output/hyper/single-tensor indices, slice or project, 0-4 indices) x "
-    "traversal orders; distinct = distinct (network, tree, removed set, order); non-trivial = a hyper "
+    "traversal orders x size type (python ints; 15%: numpy int64/int32/uint8/intp or mixed python/numpy sizes, "
+    "optionally scaled so that costs exceed 2**63); distinct = distinct (network, tree, removed set, order); non-trivial = a hyper "
     "index is present or >=1 index removed"
 )
 ASSUMPTIONS = [
     "the independent cost model is the definition (validated against the unchanged tree)",
     "extract_contractions gives the node each recorded call belongs to (it is the programme that is executed)",
 ]
-REQUIRED_MONITORS = ["annealed_trees", "copychain_trees", "totals_vs_model", "nodes_vs_model", "peak_vs_model", "array_size_observed", "flops_observed", "peak_observed"]
+REQUIRED_MONITORS = ["numpy_integer_sizes", "costs_beyond_int64", "annealed_trees", "copychain_trees", "totals_vs_model", "nodes_vs_model", "peak_vs_model", "array_size_observed", "flops_observed", "peak_observed"]
 SHARD_TIMEOUT = {"quick": 400, "thorough": 3600}
 
 
@@ -48,8 +49,35 @@ def prod(xs):
     return p
 
 
+SIZE_TYPES = ("int64", "int32", "uint8", "intp", "mixed", "mixed_first_python")
+
+
+def typed_net(net, case):
+    """The same network with its sizes (optionally scaled up so that costs pass 2**63, no arrays
+    are contracted then) handed over as numpy integers - what np.random.randint, array.shape
+    arithmetic or dict(zip(inds, np.array(shape))) give a caller.  The cost model always works on
+    exact python integers."""
+    st = case.get("size_type")
+    if not st:
+        return net
+    rng = rng_for(case["case_seed"], "size_type")
+    scale = case.get("size_scale", 1)
+    sd = {}
+    for k, (ix, d) in enumerate(net.size_dict.items()):
+        d = int(d) * scale if d > 1 else int(d)
+        if st == "uint8":
+            d = min(d, 255)
+        if st == "mixed":
+            sd[ix] = d if rng.random() < 0.5 else np.int64(d)
+        elif st == "mixed_first_python":
+            sd[ix] = d if k == 0 else np.int64(d)
+        else:
+            sd[ix] = getattr(np, st)(d)
+    return gen.Net(net.inputs, net.output, sd, net.cls + "+np_sizes")
+
+
 def build(case):
-    net = gen.Net.from_json(case["net"])
+    net = typed_net(gen.Net.from_json(case["net"]), case)
     tree = ct.make_tree(net, case["ssa"])
     if case.get("anneal"):
         # "every tree" includes trees produced by annealing (nodes installed with pre-computed
@@ -67,8 +95,12 @@ def execute(rep, case):
     """In 'copychain' mode the removed indices are applied with the NON-inplace variants, and every
     tree of the chain (each is 'a tree, sliced or not') is checked after the whole chain exists -
     figures of an older tree must not depend on what was done to trees derived from it."""
+    if case.get("size_type"):
+        rep.mon("numpy_integer_sizes")
+        if case.get("size_scale", 1) > 1:
+            rep.mon("costs_beyond_int64")
     if case.get("mode") == "copychain":
-        net = gen.Net.from_json(case["net"])
+        net = typed_net(gen.Net.from_json(case["net"]), case)
         base = ct.make_tree(net, case["ssa"])
         base.contract_stats()
         chain = [base]
@@ -139,7 +171,7 @@ def execute_tree(rep, case, net, tree):
     if pk != model.peak(trav):
         return ("peak", f"peak_size({case['order']}) {pk} != model {model.peak(trav)}")
     # ---- observed arrays ------------------------------------------------------
-    if net.space() <= case.get("cap", 50000):
+    if net.space() <= case.get("cap", 50000) and sum(prod(shp) for shp in net.shapes()) <= 40 * case.get("cap", 50000):
         arrays = net.arrays(rng_for(cs, "arrays"), "float")
         slices = sorted({0, rng_for(cs, "slice").randrange(tree.nslices)})
         for i in slices:
@@ -207,6 +239,7 @@ def gen_case(rng, cs, tier):
         "prefer_einsum": rng.random() < 0.3, "case_seed": cs, "cap": budget(tier, 30000, 200000),
         "mode": "copychain" if rng.random() < 0.25 else "inplace",
         "anneal": rng.randrange(1, 10**6) if rng.random() < 0.2 else 0,
+        **({"size_type": rng.choice(SIZE_TYPES), "size_scale": rng.choice([1, 1, 1000, 40000, 3000000])} if rng.random() < 0.15 else {}),
     }
 
 
